@@ -165,7 +165,7 @@ func (m *Machine) builtin(name string, args []Value, ats []types.Type, g *Term, 
 		case *SliceV:
 			var res *Term = Const(64, 0)
 			for _, a := range v.Alts {
-				res = Ite(a.G, ConstI(64, int64(len(a.Obj.val.(*ArrayV).E)-a.Off)), res)
+				res = Ite(a.G, ConstI(64, int64(a.room())), res)
 			}
 			return res
 		}
